@@ -10,6 +10,7 @@ VARIABLES shape
 
 \* constructor signatures: result kind <- argument kinds
 Sig == [ call0 |-> <<"int">>, call1 |-> <<"int", "int">>, call2 |-> <<"int", "int", "int">>, call3 |-> <<"int", "int", "int", "int">>,
+         rcall2 |-> <<"int", "int", "int">>, rcall3 |-> <<"int", "int", "int", "int">>,     \* calls of one-line functions whose bodies use their parameters in another order than they declare them
          mcall |-> <<"int", "obj", "int", "int">>, op |-> <<"int", "int", "int">>, cmp |-> <<"bool", "int", "int">>,
          obj0 |-> <<"obj", "par">>, obj1 |-> <<"obj", "par", "int">>, obj2 |-> <<"obj", "par", "int", "int">>, obj3 |-> <<"obj", "par", "int", "int", "int">>,
          arrs |-> <<"arr", "size">>, arrc0 |-> <<"arr", "size0", "int">>, arrc1 |-> <<"arr", "size1", "int">>, arrc2 |-> <<"arr", "size2", "int">>, arrc3 |-> <<"arr", "size3", "int">>,
